@@ -429,7 +429,7 @@ func dischargeAll(jobs []*obJob, timeoutMs int, workers int, scratch string) {
 					}
 					tmo := timeoutMs
 					if o.MustSat {
-						tmo = min(timeoutMs, 3000)
+						tmo = min(timeoutMs, 1500)
 					}
 					r2 := solve(script, scratch, o.Name, tmo, "")
 					r2.ms += r.ms
